@@ -40,6 +40,8 @@ def run(ctx):
     res.assumptions = ["observation at the client sockets with the barrier protocol (DESIGN 2.3)",
                        "snapshot hook reads the state under the server's own lock",
                        "reference model of DESIGN 2.4 encodes the statement; unspecified choices are resynchronised, not judged"]
+    # ISON / USERHOST answers that take several lines while the names change hands: one answer, one state
+    common.run_storm_kinds(ctx, res, "c19:", ["queries"], 2, 10, jobs=2)
     return res
 
 
